@@ -60,7 +60,7 @@ Proof. cbn. repeat split; discriminate. Qed.
         so such a slip changes the generated list and this equality no longer holds. ---- *)
 From DK.Model Require Import ConOps.
 From DK.Gen Require Import Constraints.
-From DK.Proofs Require Import GenConstraints.
+From DK.Proofs Require Import GenConstraints GenLeafConstraints.
 Theorem C06_source_leaf_constraints_and_jacobians : forall (q : sparams R) n bnd cbs,
   Device_constraints n cbs = cb_cons n cbs /\ SDevice_constraints (Device_constraints n cbs) q n bnd = cb_cons n cbs ++ sdev_cons q n bnd.
 Proof. intros q n bnd cbs. split; [apply gen_device_constraints|]. rewrite gen_sdevice_constraints, gen_device_constraints. reflexivity. Qed.
